@@ -8,6 +8,7 @@ let () =
    | "ring" -> R_ring.run path
    | "mpsc" -> R_mpsc.run path
    | "hmap" -> R_hmap.run path
+   | "load" -> R_load.run path
    | _ -> prerr_endline ("unknown engine " ^ engine); exit 2);
   Util.print_stats ();
   Printf.printf "RESULT mismatches=%d propfails=%d\n" !Util.mismatches !Util.propfails
